@@ -217,7 +217,7 @@ func ruleColSam(c *Ctx, r *Rep, tier string) {
 		r.Instance(rule, 1)
 		plus := false
 		for _, a := range wargs {
-			if polyOf(strip(a), nil).eq(pAtom("r." + f).add(pConst(1), 1)) {
+			if polyOf(strip(a), nil).eq(pAtom("$0." + f).add(pConst(1), 1)) {
 				plus = true
 			}
 		}
@@ -225,7 +225,7 @@ func ruleColSam(c *Ctx, r *Rep, tier string) {
 		allInstrs(rfn, func(ins ssa.Instruction) {
 			if st, ok := ins.(*ssa.Store); ok {
 				if fa, ok := st.Addr.(*ssa.FieldAddr); ok && fieldVarOfAddr(fa).Name() == f {
-					if polyOf(st.Val, nil).eq(pAtom("r." + f).add(pConst(1), -1)) {
+					if polyOf(st.Val, nil).eq(pAtom("$0." + f).add(pConst(1), -1)) {
 						minus = true
 					}
 				}
@@ -311,7 +311,7 @@ func ruleAbsentForms(c *Ctx, r *Rep, tier string) {
 		for _, ref := range []int64{0, 1, 2} {
 			for _, mate := range []int64{0, 1, 2} {
 				n++
-				sr := symExec(fm, map[string]int64{fm.Params[0].Name(): ref, fm.Params[1].Name(): mate})
+				sr := symExec(fm, map[string]int64{paramKey(fm.Params[0]): ref, paramKey(fm.Params[1]): mate})
 				if sr.Undec != "" {
 					why = "whether RNEXT is written as = depends on " + sr.Undec + ", not on the identity of the two references alone (ids are -1 for every reference that is not in a header, so an id comparison equates them)"
 					break
@@ -321,7 +321,7 @@ func ruleAbsentForms(c *Ctx, r *Rep, tier string) {
 				if got != want {
 					why += fmt.Sprintf(" ref=%d mate=%d (0 = nil): '=' written: %v, want %v;", ref, mate, got, want)
 				}
-				if !want && len(sr.RetKeys) == 1 && sr.RetKeys[0] != fm.Params[1].Name()+".Name()" && !got {
+				if !want && len(sr.RetKeys) == 1 && sr.RetKeys[0] != paramKey(fm.Params[1])+".Name()" && !got {
 					why += " the mate is written as " + sr.RetKeys[0] + ", not mate.Name();"
 				}
 			}
@@ -591,7 +591,7 @@ func ruleTabAuxText(c *Ctx, r *Rep, tier string) {
 		}
 		key := symKey(bo.X)
 		switch {
-		case strings.HasSuffix(key, "text[3]"):
+		case key == "$0[3]":
 			outer[byte(k)] = b
 		case strings.HasSuffix(key, "[5:][0]"):
 			inner[byte(k)] = b
